@@ -448,3 +448,34 @@ func RandomizedID(ch *simrt.Chooser) (IDInfo, *tls.PRNGSeed) {
 	f.ID.Seed = &seed
 	return f, &seed
 }
+
+// CallerNoise pre-sets fields that the caller's Config may already carry when it is handed to
+// UClient and that a fingerprint (parrot, randomized or custom spec) overrides by documentation:
+// version bounds, ALPN, cipher suites, curve preferences. Never used with HelloGolang, whose
+// hello is defined by the Config. Returns a short description for the world's class.
+func CallerNoise(ch *simrt.Chooser, cfg *tls.Config) string {
+	k := 0
+	if ch.Bool(35, "caller-vers?") {
+		k = 1 + ch.Pick(6, "caller-vers")
+	}
+	switch k {
+	case 1:
+		cfg.MinVersion, cfg.MaxVersion = tls.VersionTLS10, tls.VersionTLS11
+	case 2:
+		cfg.MinVersion, cfg.MaxVersion = tls.VersionTLS10, tls.VersionTLS10
+	case 3:
+		cfg.MinVersion, cfg.MaxVersion = tls.VersionTLS12, tls.VersionTLS12
+	case 4:
+		cfg.MinVersion, cfg.MaxVersion = tls.VersionTLS13, tls.VersionTLS13
+	case 5:
+		cfg.MaxVersion = tls.VersionTLS11
+	case 6:
+		cfg.MinVersion = tls.VersionTLS10
+	}
+	extra := ch.Bool(20, "caller-extra")
+	if extra {
+		cfg.NextProtos = []string{"verif/1"}
+		cfg.CurvePreferences = []tls.CurveID{tls.CurveP521}
+	}
+	return fmt.Sprintf("caller=%d/%v", k, extra)
+}
